@@ -18,7 +18,7 @@ RULE = ("E1 hill climbing: every multiset of <=k rows over 3 binary columns (+ t
         "callable weight function x every root: maximum-weight spanning tree (brute force over all 16 trees) directed away from "
         "the root; TAN for every class node; real mutual information on data with strictly positive pairwise MI. "
         "non-trivial = distinct (data, configuration) whose result differs from the start graph; weight matrices with ties")
-BOUNDS = {"quick": "HC: multisets of <=3 rows (164) + 16 truth-table sets, 26 configurations each; exhaustive: 60 data sets x 2 scores; tree: 729 matrices x 4 roots + TAN; HC on 4 columns from the 24 labelings of path+shortcut x 6 data sets x 3 scores; named weight functions on 108 data sets (chow-liu x 4 roots, TAN x 4 classes)",
+BOUNDS = {"quick": "HC: multisets of <=3 rows (164) + 16 truth-table sets, 26 configurations each; exhaustive: 60 data sets x 2 scores; tree: 729 matrices x 4 roots + TAN; HC on 4 columns from the 24 labelings of path+shortcut x 6 data sets x 3 scores; HC with the tabu list disabled on lattice data (108 sets on 4 columns x 4 start graphs x 2 scores, 144 sets on 5 ternary columns x 3 scores); named weight functions on 108 data sets (chow-liu x 4 roots, TAN x 4 classes)",
           "thorough": "HC: multisets of <=4 rows (494), pairs of deviations; exhaustive on 4 columns for 6 data sets; HC from every labelled 4-node DAG (543) x 6 data sets x {k2,bic}"}
 EXHAUSTIVE = {"quick": True, "thorough": True}
 ASSUMPTIONS = ["local optimality is judged with the library's own (uncached) local scores; their correctness is property C10",
@@ -68,6 +68,11 @@ def configs(tier):
         for i in (1, 2):
             out.append(dict(base, start=[list(e) for e in st_], indeg=i))
             out.append(dict(base, start=[list(e) for e in st_], indeg=i, tabu=0, scoring="bic"))
+    # a score with a non-trivial structure prior (BDs) with the tabu list disabled, from the empty and from non-empty start graphs
+    out.append(dict(base, tabu=0, scoring="bds"))
+    for st_ in ([(0, 1)], [(0, 1), (1, 2)], [(2, 0), (2, 1)], [(0, 1), (0, 2), (1, 2)]):
+        out.append(dict(base, tabu=0, scoring="bds", start=[list(e) for e in st_]))
+        out.append(dict(base, tabu=0, scoring="k2", start=[list(e) for e in st_]))
     if tier == "thorough":
         out += [dict(base, tabu=0, scoring=s, indeg=i) for s in ("k2", "bic", "aic") for i in (1, 2)]
         out += [dict(base, tabu=0, eps=0.5, scoring=s) for s in ("k2", "bds")]
@@ -90,6 +95,12 @@ def groups(tier, seed):
     fam = list(named_family())
     for i in range(0, len(fam), 9):
         out.append({"part": "tree-named", "lo": i, "hi": min(i + 9, len(fam))})
+    # noisy (pseudo-random lattice) data, tabu list disabled: searches in which an earlier move has to be undone later
+    for i in range(0, len(fam), 6):
+        out.append({"part": "hc-lattice", "cols": 4, "lo": i, "hi": min(i + 6, len(fam))})
+    f5 = list(lattice5())
+    for i in range(0, len(f5), 6):
+        out.append({"part": "hc-lattice", "cols": 5, "lo": i, "hi": min(i + 6, len(f5))})
     if tier == "thorough":
         # every labelled 4-node DAG as the start graph
         n4 = len(all_dags(4))
@@ -131,6 +142,10 @@ def run_group(g, tier):
         fam = list(named_family())
         for i in range(g["lo"], g["hi"]):
             _tree_named(st, fam[i][0], fam[i][1])
+    elif g["part"] == "hc-lattice":
+        fam = list(named_family()) if g["cols"] == 4 else list(lattice5())
+        for i in range(g["lo"], g["hi"]):
+            _hc_lattice(st, g["cols"], i, fam[i][1])
     else:
         _tree_mi(st)
     return st
@@ -150,6 +165,9 @@ def replay(case):
         _tree(st, case["code"])
     elif case["part"] == "hc4":
         _hc4(st, case["perm"], case["data"], case["cfg"]["scoring"], start=case["cfg"]["start"] if case["perm"] is None else None, idx=case.get("idx"))
+    elif case["part"] == "hc-lattice":
+        fam = list(named_family()) if case["cols"] == 4 else list(lattice5())
+        _hc_lattice(st, case["cols"], case["idx"], fam[case["idx"]][1], only=case["cfg"])
     elif case["part"] == "tree-named":
         fam = dict((tuple(k), r) for k, r in named_family())
         _tree_named(st, case["key"], fam[tuple(case["key"])])
@@ -467,7 +485,7 @@ def _tree_bad(E, n, root, W, best, nodes):
 
 # ---- four columns: start graphs in which reversing X->Y would close a cycle through a path of three edges
 COLS4 = ["W", "X", "Y", "Z"]
-HC4_SCORES = ["k2", "bic", "bdeu"]
+HC4_SCORES = ["k2", "bic", "bdeu", "bds"]
 
 
 def _hc4_data():
@@ -494,6 +512,31 @@ def _hc4(st, pi, di, scoring, start=None, idx=None):
     for tabu in (0, 100) if pi is not None else (0,):
         cfg = {"scoring": scoring, "start": start, "fixed": [], "black": None, "white": None, "indeg": None, "tabu": tabu, "eps": 1e-4, "cache": True}
         _hc(st, HC4_DATA[di], cfg, {"part": "hc4", "perm": pi, "data": di, "idx": idx}, COLS4)
+
+
+COLS5 = ["V", "W", "X", "Y", "Z"]
+DENSE4 = [[[p[i], p[j]] for i in range(4) for j in range(i + 1, 4)] for p in ((0, 1, 2, 3), (3, 2, 1, 0), (2, 0, 3, 1))]
+
+
+def lattice5():
+    """deterministic pseudo-random data over five ternary columns"""
+    for N in (24, 32, 40, 48):
+        for s1 in (1, 2, 3, 4):
+            for s2 in (1, 2, 3):
+                for s3 in (0, 1, 2):
+                    yield [N, s1, s2, s3], [((i * s1 + i // 3) % 3, (i // 2 + (i // 5) * s3) % 3, (i * s1 + i // 4 + s3) % 3, (i * s2 + i // 3 + (i * i) // 7) % 3,
+                                             (i * i * s2 + i // 2 + s1 * (i // 6)) % 3) for i in range(N)]
+
+
+def _hc_lattice(st, ncols, idx, rows, only=None):
+    cols = COLS4 if ncols == 4 else COLS5
+    starts = [None] + (DENSE4 if ncols == 4 else [])
+    for scoring in (("k2", "bic") if ncols == 4 else ("k2", "bic", "bdeu")):
+        for start in starts:
+            cfg = {"scoring": scoring, "start": start, "fixed": [], "black": None, "white": None, "indeg": None, "tabu": 0, "eps": 1e-4, "cache": True}
+            if only is not None and cfg != only:
+                continue
+            _hc(st, rows, cfg, {"part": "hc-lattice", "cols": ncols, "idx": idx}, cols)
 
 
 def named_family():
